@@ -43,13 +43,17 @@ func genC13(t *rapid.T) C13Case {
 			var s C13Step
 			if rapid.IntRange(0, 3).Draw(t, "special") == 0 {
 				s.Special = rapid.SampledFrom([]string{"abort-upload", "abort-download", "upgrade", "connect10", "idle-close", "half-request",
-					"mitm-abandon", "mitm-bad-hello", "mitm-cleartext", "connect-reset-while-dialling", "reset-before-response"}).Draw(t, "specialkind")
+					"mitm-abandon", "mitm-bad-hello", "mitm-cleartext", "connect-reset-while-dialling", "reset-before-response",
+					"pp-ok", "pp-silent", "pp-garbage", "pp-partial"}).Draw(t, "specialkind")
 				s.Route = rapid.SampledFrom([]string{"direct", "direct", "mitm", "upstream"}).Draw(t, "sroute")
 				if strings.HasPrefix(s.Special, "mitm-") {
 					s.Route = "mitm"
 				}
 				if s.Special == "connect-reset-while-dialling" {
 					s.Route = "direct"
+				}
+				if strings.HasPrefix(s.Special, "pp-") {
+					s.Route = "pp"
 				}
 				if s.Special == "connect10" && s.Route == "mitm" {
 					s.Route = "direct"
@@ -126,6 +130,28 @@ func (e *fltEnv) runSpecial(s C13Step, id int64, idx int) acct {
 	br := bufio.NewReader(conn)
 	if s.Special == "idle-close" {
 		return a // connect, send nothing, close
+	}
+	switch s.Special {
+	case "pp-silent":
+		// no PROXY header at all: the listener gives up after its header time-out and closes
+		WaitClosed(tc, br, 2*time.Second)
+		return a
+	case "pp-garbage":
+		tc.Write([]byte("GET / HTTP/1.1\r\nHost: x\r\n\r\n"))
+		WaitClosed(tc, br, 2*time.Second)
+		return a
+	case "pp-partial":
+		tc.Write([]byte(ppLine[:len(ppLine)/2]))
+		WaitClosed(tc, br, 2*time.Second)
+		return a
+	case "pp-ok":
+		fmt.Fprintf(tc, "%sGET http://%s/s HTTP/1.1\r\nHost: %s\r\nX-Vid: %s\r\nConnection: close\r\n\r\n", ppLine, host, host, vid)
+		code := 0
+		if m, err := ReadResponse(br, "GET"); err == nil {
+			code = m.Status
+		}
+		a.reqs = append(a.reqs, acctReq{"GET", code})
+		return a
 	}
 	if tls_ {
 		fmt.Fprintf(tc, "CONNECT %s HTTP/1.1\r\nHost: %s\r\n\r\n", host, host)
@@ -303,7 +329,7 @@ func runC13(c C13Case) (fails []vstat.Failure) {
 	if err != nil {
 		return []vstat.Failure{vstat.Failf("C13:harness", "environment: %v", err)}
 	}
-	routes := []string{"direct", "mitm", "upstream", "mitm-upstream"}
+	routes := []string{"direct", "mitm", "upstream", "mitm-upstream", "pp"}
 	settle := func(wantAccepted map[string]float64) map[string]books {
 		// all exchanges have returned and their sockets are closed: wait until the proxies have
 		// accepted every connection the harness opened (a short-lived one may still sit in the
